@@ -33,7 +33,8 @@ WireStages(sts) == [k \in DOMAIN sts |-> WireStage(sts[k])]
 RECURSIVE WireExpr(_)
 WireExpr(e) ==
   CASE e.t = "range" -> [t |-> "range", op |-> e.op, sel |-> WireMatchers(e.sel), stages |-> WireStages(e.stages), range |-> e.range, offset |-> e.offset,
-                         unwrap |-> [on |-> e.unwrap.on, label |-> e.unwrap.label, conv |-> e.unwrap.conv],
+                         unwrap |-> [on |-> e.unwrap.on, label |-> e.unwrap.label, conv |-> e.unwrap.conv,
+                                     filters |-> WireMatchers(IF "filters" \in DOMAIN e.unwrap THEN e.unwrap.filters ELSE <<>>)],
                          param |-> IF e.op = "quantile_over_time" THEN NormPair(e.param) ELSE <<0, 1>>, grp |-> [mode |-> e.grp.mode, labels |-> e.grp.labels]]
     [] e.t = "vecagg" -> [t |-> "vecagg", op |-> e.op, k |-> IF e.op \in {"topk", "bottomk"} THEN e.k ELSE 0, grp |-> [mode |-> e.grp.mode, labels |-> e.grp.labels], e |-> WireExpr(e.e)]
     [] e.t = "binop" -> [t |-> "binop", op |-> e.op, bool |-> e.bool, a |-> WireExpr(e.a), b |-> WireExpr(e.b)]
